@@ -127,7 +127,7 @@ def load_known():
 class Check:
     """collects obligations of one property check and writes the evidence file"""
 
-    def __init__(self, pid, level='model_checking'):
+    def __init__(self, pid, level='other'):
         self.pid = pid
         self.level = level
         self.tier = tier()
@@ -195,7 +195,7 @@ class Check:
     def finish(self, explanation, rule, trusted=None):
         wall = time.time() - self.t0
         cov = {
-            'evaluations': max(self.evaluations, 0),
+            'evaluations': int(round(max(self.evaluations, 0))),
             'distinct_nontrivial': len(self.distinct),
             'rule': rule,
             'samples': self.samples[:12] if self.samples else [],
@@ -214,6 +214,8 @@ class Check:
             'exhaustive': False,
         }
         cov.update(self.extra)
+        if not cov['samples']:
+            cov['samples'] = [{'note': 'no solver-discharged obligation in this run', 'obligations': self.obligations}]
         ev = {'property_id': self.pid, 'tier': self.tier, 'seed': self.seed, 'level': self.level, 'coverage': cov,
               'assumptions': self.assumptions, 'wall_s': round(wall, 3), 'violations': len(self.violations)}
         with open(os.path.join(EVID, self.pid + '.json'), 'w') as f:
